@@ -301,6 +301,7 @@ def hash_apply(name, data):
         if hit is not None and hit[0].eq(inp):
             out = VBytes._mk(list(hit[1]))
             out.preimage = (name, VBytes._mk(list(d)))
+            _note_table(st, name, len(d), inp, out._d)
             return out
         acc = {}
         _free_vars(inp, acc)
@@ -312,6 +313,7 @@ def hash_apply(name, data):
                 if len(_table_cache) > 5000:
                     _table_cache.clear()
                 _table_cache[ck] = (inp, list(r._d))
+                _note_table(st, name, len(d), inp, r._d)
                 return r
     f = _huf.func(name, len(d), nout)
     oe = f(inp)
@@ -322,6 +324,9 @@ def hash_apply(name, data):
         for (ci, co) in st.get('hash_conc', {}).get(key, []):
             cur().add(f(z3.BitVecVal(_rint.from_bytes(ci, 'big'), 8 * len(ci))) ==
                       z3.BitVecVal(_rint.from_bytes(co, 'big'), 8 * nout))
+        # applications of the same arity that were expanded into exact tables: tie them to the function symbol
+        for (ti, to) in st.get('hash_tbl', {}).get(key, []):
+            cur().add(f(ti) == to)
     if st.get('collision_free'):
         # stated assumption: the hash has no collisions among the applications that occur on this path
         apps = st.setdefault('hash_apps', {}).setdefault(name, [])
@@ -345,6 +350,22 @@ def hash_apply(name, data):
     out = VBytes._mk(items)
     out.preimage = (name, VBytes._mk(list(d)))
     return out
+
+
+def _note_table(st, name, n, inp, items):
+    """an application decided by exact table expansion; if uninterpreted applications of the same arity exist on this path
+    (or appear later) the two must agree on equal inputs"""
+    if st is None or n == 0:
+        return
+    parts = [(x.tw(8) if isinstance(x, SymInt) else z3.BitVecVal(x, 8)) for x in items]
+    out = z3.Concat(*parts) if len(parts) > 1 else parts[0]
+    lst = st.setdefault('hash_tbl', {}).setdefault((name, n), [])
+    for (ti, _) in lst:
+        if ti.eq(inp):
+            return
+    lst.append((inp, out))
+    if (name, n) in st.get('hash_sym', ()):
+        cur().add(_huf.func(name, n, _OUT[name])(inp) == out)
 
 
 def _link_concrete(st, name, n, ci, co):
